@@ -197,3 +197,41 @@ func c04UnderNull(tree any, p string) bool {
 	}
 	return false
 }
+
+func Setup_C04_extensionDup() { Setup_C01_exec() }
+
+// Harness_C04_extensionDup: user code misusing a gqlgen API that panics -
+// every resolver-backed field registers the response extension "cost", so
+// every registration after the first panics inside graphql.RegisterExtension:
+// each of those positions fails like any panicking resolver (null, one
+// error, recover hook once), the others keep their values, and the
+// operation still completes with the first registration in its extensions.
+func Harness_C04_extensionDup() {
+	fi := c04InterceptFamilies[zzsym.Choice("family", len(c04InterceptFamilies))]
+	fam := c01Families[fi]
+	vars := map[string]any{}
+	for _, v := range fam.flags {
+		vars[v] = true
+	}
+	w := newWorld(0, true)
+	w.intercept = true
+	w.regExt = true
+	doc := c01Docs[fi]
+	op := doc.Operations[0]
+	got := runOp(w, doc, op, vars)
+	want := ref.Execute(pSchema, doc, op, vars, w)
+	zzsym.Event("data", got.data)
+	zzsym.Event("want", want.Data+" "+strings.Join(want.Errors, " "))
+	zzsym.Assert(len(got.resps) == 1, "the operation completes with one response")
+	zzsym.Assert(got.data == want.Data, "only the positions whose registration panicked are null")
+	zzsym.Assert(sameErrors(got.errs, want.Errors), "exactly one error per failure, at the failing path")
+	zzsym.Assert(w.recovers == w.raised, "the recover hook runs exactly once per panic")
+	if w.regs > 0 && len(got.resps) == 1 {
+		_, ok := got.resps[0].Extensions["cost"]
+		zzsym.Assert(ok, "the first registration is part of the response")
+	}
+	if w.raised > 0 {
+		zzsym.Reach("c04.extdup.panic")
+	}
+	zzsym.Reach("c04.extdup")
+}
